@@ -27,3 +27,80 @@ Definition alter_trimpath (flags : list str) (tempdir : str) : list str :=
 (* a flag occurs exactly once, in the -name=value form (how cmd/go passes -buildid, -importcfg, -trimpath) *)
 Definition mentions (name : str) (arg : str) : bool :=
   beq arg name || match strip_prefix (name ++ [EQ]) arg with Some _ => true | None => false end.
+
+(* ---- transformLink's duplication of -X flags for obfuscated names.
+        [lookup] answers sharedCache.ListedPackages.get(path) with (obfuscatedImportPath, hashing key);
+        "main" always means the package being linked. *)
+Definition s_X := Eval vm_compute in s2b "-X".
+Definition s_Xeq := Eval vm_compute in s2b "-X=".
+Definition s_mainpkg := Eval vm_compute in s2b "main".
+
+(* flagValues(flags, "-X"): -X=value yields value; -X followed by an argument yields that argument *)
+Fixpoint x_values (flags : list str) : list str :=
+  match flags with
+  | [] => []
+  | a :: r =>
+      (match strip_prefix s_Xeq a with Some v => [v] | None => [] end) ++
+      (if beq a s_X then match r with v :: _ => [v] | [] => [] end else []) ++
+      x_values r
+  end.
+
+(* strings.Cut(val, "=") *)
+Fixpoint cut_eq (s : str) : option (str * str) :=
+  match s with
+  | [] => None
+  | c :: r => if c =? EQ then Some ([], r)
+              else match cut_eq r with Some (a, b) => Some (c :: a, b) | None => None end
+  end.
+(* split at the LAST dot: (path, name); None when there is no dot (the implementation panics there) *)
+Fixpoint cut_last_dot (s : str) : option (str * str) :=
+  match s with
+  | [] => None
+  | c :: r => match cut_last_dot r with
+              | Some (a, b) => Some (c :: a, b)
+              | None => if c =? 46 then Some ([], r) else None
+              end
+  end.
+
+Section X.
+  Variable lookup : str -> option (str * str).      (* package path -> (obfuscated import path, key) *)
+  Variable cur : str * str.                          (* the same for the package being linked *)
+  Variable hname : str -> str -> str.                (* hashWithPackage(key, name) *)
+
+  Definition x_dup (val : str) : list str :=
+    match cut_eq val with
+    | None => []
+    | Some (full, v) =>
+        match cut_last_dot full with
+        | None => []        (* outside the domain: LastIndexByte = -1 *)
+        | Some (path, name) =>
+            match (if beq path s_mainpkg then Some cur else lookup path) with
+            | None => []
+            | Some (ipath, key) => [s_Xeq ++ ipath ++ [46] ++ hname key name ++ [EQ] ++ v]
+            end
+        end
+    end.
+  Definition x_dups (flags : list str) : list str := flat_map x_dup (x_values flags).
+End X.
+
+(* ---- computeLinkerVariableStrings: which package-level variables of the package being compiled
+        are set through the linker's -X flag, and to what (they must not be obfuscated as literals).
+        [ldflags] is the already split -ldflags value; later flags override earlier ones. *)
+Definition linker_var (pkg_path pkg_name : str) (vars : list str) (val : str) : option (str * str) :=
+  match cut_eq val with
+  | None => None
+  | Some (full, v) =>
+      match cut_last_dot full with
+      | None => None      (* outside the domain: LastIndexByte = -1 *)
+      | Some (path, name) =>
+          if (beq path pkg_path || (beq path s_mainpkg && beq pkg_name s_mainpkg)) && mem name vars then Some (name, v) else None
+      end
+  end.
+Fixpoint assoc_set (k v : str) (m : list (str * str)) : list (str * str) :=
+  match m with
+  | [] => [(k, v)]
+  | (k', v') :: r => if beq k k' then (k, v) :: r else (k', v') :: assoc_set k v r
+  end.
+Definition linker_var_strings (pkg_path pkg_name : str) (vars : list str) (ldflags : list str) : list (str * str) :=
+  fold_left (fun m val => match linker_var pkg_path pkg_name vars val with Some (k, v) => assoc_set k v m | None => m end)
+            (x_values ldflags) [].
